@@ -76,7 +76,7 @@ def judge(run, cases, res):
         c = byid[cid]
         if isinstance(c.get("obs"), dict) and c["obs"].get("result") == "hang":
             continue
-        canon = {k: c.get(k) for k in ("fam", "expected", "timeout_ms", "script", "tail", "reloads", "started", "version", "check", "stream", "open_tracing")}
+        canon = {k: c.get(k) for k in ("fam", "expected", "timeout_ms", "script", "tail", "reloads", "started", "plus", "version", "check", "stream", "open_tracing")}
         if c["fam"] == "wait" and not robust:
             skipped += 1          # outcome depends on sub-30ms timing: not compared
             continue
@@ -140,7 +140,7 @@ def check(run):
     run.cov["rule"] = ("wait: response scripts of classes early/never/late/inflight (stale versions, transport errors, non-200 carrying "
                        "the right body, 17 garbage bodies, signed/zero-padded matches) + infinite tail, timeouts 150-220 ms; reload: sequences of 1-5 real "
                        "Reload calls with shell failures, unconfirmed versions and versions that appear only after the configured timeout, half of them on a manager that went through the real "
-                       "Start first (stand-in binary); a Reload that neither returns within three timeouts is a failure; api: version guard in front of the Plus API (HTTP and stream); conf: "
+                       "Start first (stand-in binary), a third on an NGINX Plus manager with its API clients set, a third of the steps as endpoints reloads; a Reload that neither returns within three timeouts is a failure; api: version guard in front of the Plus API (HTTP and stream); conf: "
                        "config-version.conf bytes.  A case is distinct by its full input; wait cases with an empty script are trivial; wait cases whose model "
                        "outcome changes when the deadline moves by +-30 ms are not compared (counted in skipped_timing_sensitive).")
     run.cov["trusted_base"] = TRUSTED
